@@ -101,6 +101,18 @@ def check(ctx, parts=('cursor', 'store', 'index', 'guards', 'atomic', 'tobytes',
     succ_form = lin_sub({b2: 1}, {POS: 1, L: 1})             # b2 - position - L < 0
     nonempty_succ = canon(parse_expr('len(%s[%s[%s - 1 + 1]])' % (CM, BG, I)))
 
+    # Round 8: successors walked in a loop that lets the empty ones pass: an empty chunk stored strictly
+    # inside the range of the new chunk stays in the index, between this chunk's begin and end
+    if 'guards' in parts:
+        for lp_ in [n for n in ast.walk(ins.node) if isinstance(n, (ast.While, ast.For))]:
+            tests = [n for n in ast.walk(lp_) if isinstance(n, ast.If) and any(isinstance(x, ast.Raise) for b in n.body for x in ast.walk(b))
+                     and CM in canon(n.test) and not isinstance(n.test, ast.Compare)]
+            len_tests = [n for n in ast.walk(lp_) if isinstance(n, ast.If) and any(isinstance(x, ast.Raise) for b in n.body for x in ast.walk(b))
+                         and ('len(%s[' % CM) in canon(n.test) and L not in canon(n.test) and POS not in canon(n.test)]
+            if tests or len_tests:
+                t_ = (tests or len_tests)[0]
+                ctx.violation('R8-collision-guards', ins, 'loop over the successors: if %s: raise' % canon(t_.test)[:60], 'a successor that begins inside the range of the new chunk is let through when its chunk is empty: the empty chunk then lies strictly inside a stored chunk, where the predecessor test of a later insert lands on it (an overlapping chunk is accepted) and tobytes steps backwards (too much padding)', t_.lineno, clause='4', witness=True)
+
     # ---------------------------------------------------------- (1) cursor
     for p in (ok_paths if 'cursor' in parts else []):
         st = [e for e in p.effects if e.kind == 'store_attr' and canon(e.obj) == 'self' and e.name == 'current_offset']
@@ -344,6 +356,12 @@ def check(ctx, parts=('cursor', 'store', 'index', 'guards', 'atomic', 'tobytes',
                 for bp in loops[0].sub['body']:
                     if not bp.raises() and not [e for e in bp.all_effects() if e.kind == 'call' and isinstance(e.call.func, ast.Attribute) and e.call.func.attr == 'insert']:
                         ctx.violation('R8-append-at-cursor', fi, 'extend: loop pass [%s]' % '; '.join(bp.guard_texts())[:120], 'an element of the iterable is not inserted', fi.node.lineno, clause='6')
+            elif name == 'extend' and here and not loops and any(isinstance(x, ast.Call) and isinstance(x.func, ast.Attribute) and x.func.attr == 'join'
+                                                                    for e_ in here for a_ in e_.call.args[1:2] for x in ast.walk(a_)):
+                # Round 8: the chunks glued into one insert: each chunk is no longer checked and stored on
+                # its own -- when a later one collides the earlier ones, which fit, are lost with it (and
+                # the cursor stays), and an empty iterable now inserts an empty chunk
+                ctx.violation('R8-append-at-cursor', fi, 'extend: %s' % canon(here[0].call)[:100], 'the chunks of the iterable are joined and inserted as one chunk instead of one insert per chunk at the moving cursor: a collision of a later chunk discards the earlier ones too, and extend([]) inserts an empty chunk (which is refused on an occupied cell)', here[0].lineno, clause='6', witness=True)
             elif not here:
                 ctx.violation('R8-append-at-cursor', fi, '%s: path [%s]' % (name, '; '.join(p.guard_texts())[:120]), 'a path returns without inserting the chunk', fi.node.lineno, clause='6')
             calls.extend(here)
